@@ -1,8 +1,74 @@
 import DarkluaModel.Util.Sexp
-/-! Line-protocol handlers for property C13 (stub: nothing modelled yet). -/
+import DarkluaModel.C13.Model
+import DarkluaModel.C13.Spec
+/-! Line-protocol handlers for property C13. -/
 namespace DarkluaModel.C13
 
-def handle (op : String) (_args : List String) : String :=
-  "unknown-op " ++ op
+def dialect? : String → Option Spec.Dialect
+  | "luau" => some .luau
+  | "lua51" => some .lua51
+  | _ => none
+
+def showOptBytes : Option (List UInt8) → String
+  | some bs => "some " ++ bytesToHex bs
+  | none => "none"
+
+def showOptBytes1 : Option (List UInt8) → String
+  | some bs => "some:" ++ bytesToHex bs
+  | none => "none"
+
+def showSeg : Option (List UInt8 × List UInt8) → String
+  | some (out, rest) => "some:" ++ bytesToHex out ++ ":" ++ bytesToHex rest
+  | none => "none"
+
+def handle (op : String) (args : List String) : String :=
+  match op, args with
+  | "wstr", [h] =>
+    match hexToBytes? h with
+    | some v => bytesToHex (writeString v)
+    | none => "bad-args"
+  | "wseg", [h] =>
+    match hexToBytes? h with
+    | some v => bytesToHex (writeInterpSegment v)
+    | none => "bad-args"
+  | "decode", [d, h] =>
+    match dialect? d, hexToBytes? h with
+    | some d, some t => showOptBytes (Spec.decodeLiteral d t)
+    | _, _ => "bad-args"
+  | "dseg", [h] =>
+    match hexToBytes? h with
+    | some t =>
+      match Spec.decodeInterpSegment t with
+      | some (out, rest) => "some " ++ bytesToHex out ++ " " ++ bytesToHex rest
+      | none => "none"
+    | none => "bad-args"
+  -- combined: value, real output ↦ model output, both decodings of the REAL output, hypotheses
+  | "str", [hv, hr] =>
+    match hexToBytes? hv, hexToBytes? hr with
+    | some v, some r =>
+      " ".intercalate [bytesToHex (writeString v), showOptBytes1 (Spec.decodeLiteral .luau r),
+        showOptBytes1 (Spec.decodeLiteral .lua51 r), toString (straddles v), toString (lua51Safe v),
+        toString (usesLongBracket v)]
+    | _, _ => "bad-args"
+  -- combined for interpolated segments: the real output is decoded followed by each terminator
+  | "seg", [hv, hr] =>
+    match hexToBytes? hv, hexToBytes? hr with
+    | some v, some r =>
+      " ".intercalate [bytesToHex (writeInterpSegment v), showSeg (Spec.decodeInterpSegment (r ++ [96])),
+        showSeg (Spec.decodeInterpSegment (r ++ [123, 120, 125]))]
+    | _, _ => "bad-args"
+  | "lua51safe", [h] =>
+    match hexToBytes? h with
+    | some v => toString (lua51Safe v)
+    | none => "bad-args"
+  | "straddles", [h] =>
+    match hexToBytes? h with
+    | some v => toString (straddles v)
+    | none => "bad-args"
+  | "longform", [h] =>
+    match hexToBytes? h with
+    | some v => toString (usesLongBracket v)
+    | none => "bad-args"
+  | _, _ => "unknown-op " ++ op
 
 end DarkluaModel.C13
